@@ -59,6 +59,7 @@ C07 == LET e == Log[i] IN ~IsViolation(Verdict(WorldOfRec(e), ReqOfRec(e), e.obs
 One(b) == IF b THEN 1 ELSE 0
 Acc0 == [line |-> 0, accepted |-> 0, signed_ok |-> 0, refused |-> 0, must_refuse |-> 0, impl_stricter |-> 0,
          panics |-> 0, changed_on_refusal |-> 0, sole |-> [r \in RuleNames |-> 0],
+         fallback_signed |-> 0, fallback_refused_dest |-> 0, both_attempts_failed |-> 0,
          nviolations |-> 0, violations |-> <<>>, ndivergent |-> 0, divergences |-> <<>>]
 StepAcc(acc, e) ==
   LET j == Judge(e)
@@ -77,6 +78,13 @@ StepAcc(acc, e) ==
    panics |-> acc.panics + One(e.obs.tag = "panic"),
    changed_on_refusal |-> acc.changed_on_refusal + One(~e.obs.ok /\ e.obs.changed),
    sole |-> [r \in RuleNames |-> acc.sole[r] + One(~e.obs.ok /\ r \in j.sole)],
+   \* phase 1, two-attempt decoding (per the code-shaped model, on cases where the real verdict agrees):
+   \* signed on the FALLBACK assignment / refused although the fallback's values fit, because of ITS destination
+   fallback_signed |-> acc.fallback_signed + One(e.obs.ok /\ j.conf /\ j.impl.attempt = "unlikely"),
+   fallback_refused_dest |-> acc.fallback_refused_dest
+                             + One(~e.obs.ok /\ j.conf /\ j.impl.attempt = "both_failed"
+                                   /\ j.impl.utag \in {"dest", "upfront"}),
+   both_attempts_failed |-> acc.both_attempts_failed + One(j.impl.attempt = "both_failed"),
    nviolations |-> acc.nviolations + One(bad),
    violations |-> IF keep THEN Append(acc.violations, vrec) ELSE acc.violations,
    ndivergent |-> acc.ndivergent + One(~j.conf),
